@@ -79,7 +79,10 @@ CHECKS["C29"] = _c("purity/effect analysis of ygot's path resolution, expansion 
 CHECKS["C27"] = _c("structural analysis of the schema embedding path (key-domain agreement, no-filter loops, who-may-write on yang.Entry, complete marshal/gzip/decode) + read-set rule over goyang's json struct tags for everything reachable from the run-time API",
     "Decides that struct names are recorded under the key they are looked up by, that no module child or entry is filtered out and only Description/Annotation are written before serialising, that the whole root is marshalled and gzipped completely, that decoding restores Parent and indexes every annotated entry, and that run-time code reads only entry fields that survive serialisation.")
 
-for _p in ["C26"]:
+CHECKS["C26"] = _c("expansion of all 31 gogen templates into one complete package (both union styles) type-checked with go/types against the loaded ygot/ytypes/goyang; interface-satisfaction checks; type-check of the 54 golden generated Go files; structural rules on writeGoStruct (one field per IR field, Go type per node kind, uniquified names, consistent ordered/unordered decision) and createFakeRoot",
+    "Decides that the code the templates expand to compiles and implements the ygot interfaces, that the golden generated files type-check, that writeGoStruct emits one field per IR field with the type of its node kind from the uniquified name maps with one shared ordered-map decision, and that the fake root receives every root directory, leaf and leaf-list.")
+
+for _p in []:
     NA[_p] = NOT_YET
 NA["C10"] = "quantifies over runtime trees, paths and payloads; its structural clauses (key and value tables) are decided under C16/C18 and the frame clause has no static handle here (DESIGN.md §7)"
 NA["C23"] = "classification of runtime leaves after single-leaf edits; no clause visible in code shape beyond those claimed under C22 (DESIGN.md §7)"
